@@ -74,6 +74,11 @@ func p2Cases(id, tier string, seed int64, n int) []core.Case {
 				// refuses or must still count every intact block
 				kind = "corrupt-volume"
 			}
+			if id == "C03" && i%40 == 21 {
+				// a recovery file that starts with packets of another recovery
+				// set (two downloads concatenated): every block of ours still counts
+				kind = "mixed-volume"
+			}
 			if id == "C03" && i%20 == 11 {
 				// an extra recovery file with valid checksums and the set's own ID
 				// whose recovery packet is not a block of this set
@@ -303,6 +308,22 @@ func buildP2Scenario(r *core.R, p p2ScenParams) *p2Scenario {
 				b[rng.Intn(len(b))] ^= 1 << uint(rng.Intn(8))
 				os.WriteFile(v, b, 0644)
 				sc.corruptVolume = filepath.Base(v)
+			}
+		}
+	case p.Kind == "mixed-volume":
+		foreign := par2rw.BuildSet(env.set.SliceSize, []par2rw.InFile{{Name: "someone else's.bin", Data: scen.Garbage(rng, 2*env.set.SliceSize+3)}})
+		fpk := append([]par2rw.Packet{}, foreign.Critical()...)
+		fpk = append(fpk, foreign.RecvPacket(0), foreign.RecvPacket(1), foreign.CreatorPacket("another client"))
+		head := par2rw.Serialize(fpk)
+		for i, v := range vols {
+			if i == 0 || rng.Intn(2) == 0 {
+				if b, err := os.ReadFile(v); err == nil {
+					if rng.Intn(3) == 0 {
+						// foreign packets first AND last
+						b = append(b, head...)
+					}
+					os.WriteFile(v, append(append([]byte(nil), head...), b...), 0644)
+				}
 			}
 		}
 	case p.Kind == "bogus-volume":
